@@ -21,7 +21,8 @@ META = {
                    "repository's client and server code, not about the websockets library or TCP.",
     "bounds": {"schemes": "all nine, small block parameters", "database": "3 keywords (utf-8 incl. a non-ASCII one), "
                "1-4 hex identifiers each", "server restart": "before any of the 5 workflow steps, before the searches, "
-               "or never (solver-chosen)", "client": "re-created from disk before every step; searches through fresh client objects or all through one", "keyword sequences": "each keyword once in two orders, and a 7-request sequence repeating present and absent keywords", "pace": "every step after the server's cleanup delays expired, or immediately (restart then drops the pending cleanups)"},
+               "or never (solver-chosen)", "client": "re-created from disk before every step; searches through fresh client objects or all through one", "keyword sequences": "each keyword once in two orders, and a 7-request sequence repeating present and absent keywords", "cleanup delays": "separate obligation: before each of the 8 client steps a solver-chosen number of the pending "
+               "server cleanup delays expires (PiBas; thorough: three schemes)", "pace": "every step after the server's cleanup delays expired, or immediately (restart then drops the pending cleanups)"},
     "outside_bounds": "the websockets library, sockets, real event-loop timing; larger databases",
     "stubs": ["websockets.client.connect -> in-memory pair", "asyncio -> env/aio.py", "file managers -> env/memfs.py",
               "loggers silenced"],
@@ -104,9 +105,51 @@ def h_e2e(P, S):
     return True
 
 
+def h_pace(P, S):
+    """the server's cleanup delays of closed connections as schedulable events: before every client step a
+    solver-chosen number of the pending delays (oldest first) expires, the others stay pending - so a cleanup may
+    run long after later connections have come and gone.  No restart; every step by a fresh client object."""
+    from toolkit.database_utils import convert_database_keyword_to_bytes
+    from toolkit.bytes_utils import BytesConverter
+    scheme = P["scheme"]
+    fs, rt = W._world()
+    db = convert_database_keyword_to_bytes(copy.deepcopy(JSON_DB))
+    sid = ""
+    words = ["kw", "absent", "z"]
+    steps = [("create", _cfg(scheme)), ("genkey", None), ("encrypt", db), ("upload_config", None), ("upload_db", None)]
+    steps += [("search", w.encode("utf-8")) for w in words]
+    if P.get("twin"):
+        return False
+    trace = []
+    for i, (op, arg) in enumerate(steps):
+        pend = rt.pending_sleeps()
+        if pend:
+            k = S.pick("expire%d" % i, 0, len(pend))
+            for f in pend[:k]:
+                f.set_result()
+                rt.run_until_idle()
+            trace.append("%d/%d" % (k, len(pend)))
+        n = len(W.WORLD["results"])
+        out, sid = W._run_op(fs, rt, sid, op, arg, settle=False)
+        if out != "ok":
+            return S.fail("step-%s-%s|expired before each step: %s" % (op, out, " ".join(trace)))
+        if op == "search":
+            got = W.WORLD["results"][n:]
+            if len(got) != 1:
+                return S.fail("search-delivered-%d-results" % len(got))
+            delivered = [BytesConverter.convert_bytes(x, "hex") for x in got[0][1]]
+            want = [h.lower() for h in JSON_DB.get(arg.decode("utf-8"), [])]
+            if (sorted(delivered) != sorted(want)) if scheme == "DP17.Pi" else (delivered != want):
+                return S.fail("delivered-result-differs")
+    return True
+
+
 def obligations(tier, seed):
     obs = []
     for scheme in PL.SCHEMES:
         obs.append(ob("c09.e2e.%s" % scheme, "harness.c09", "h_e2e", {"scheme": scheme, "seed": seed}, budget_s=600))
+    for scheme in (["CJJ14.PiBas"] if tier == "quick" else ["CJJ14.PiBas", "CT14.Pi", "DP17.Pi"]):
+        obs.append(ob("c09.pace.%s" % scheme, "harness.c09", "h_pace", {"scheme": scheme, "seed": seed}, budget_s=900))
+    obs.append(twin("c09.pace.twin", "harness.c09", "h_pace", {"scheme": "CJJ14.PiBas", "twin": True}))
     obs.append(twin("c09.twin", "harness.c09", "h_e2e", {"scheme": "CJJ14.PiBas", "twin": True}))
     return obs
